@@ -37,20 +37,55 @@ def index_loops(func, collections=('phases', 'precipitateParameters', 'PBM', 'PB
         for a in cands:
             c = U.chain(a) if isinstance(a, (ast.Attribute, ast.Name)) else None
             if c and c[-1] in collections and len(c) >= 2 and not any(n is o[0] for o in out):
-                out.append((n, None, c[-1]))
+                idx = None
+                if isinstance(it, ast.Call) and U.call_name(it) == 'enumerate' and isinstance(n.target, ast.Tuple) and n.target.elts and isinstance(n.target.elts[0], ast.Name):
+                    idx = n.target.elts[0].id
+                out.append((n, idx, c[-1]))
     return out
 
 
-def _uses_index(target, p):
-    if p is None:
+def _uses_index(target, keys):
+    """some per-item key (the loop index, a loop item variable, or an iteration-local derived from them) occurs in a
+    subscript of the target chain"""
+    if not keys:
         return False
-    """the loop index occurs in some subscript of the target chain"""
+    if isinstance(keys, str):
+        keys = {keys}
     n = target
     while isinstance(n, (ast.Attribute, ast.Subscript)):
-        if isinstance(n, ast.Subscript) and p in U.names_in(n.slice):
+        if isinstance(n, ast.Subscript) and keys & U.names_in(n.slice):
             return True
         n = n.value
     return False
+
+
+def item_keys(loop, p):
+    """names that identify the current item inside one iteration: the index, the loop target names, and locals of the
+    body bound once (at the top level of the body) to an expression of those"""
+    keys = set(U.target_names(loop.target))
+    if p:
+        keys.add(p)
+    counts = {}
+    for st in ast.walk(ast.Module(body=loop.body, type_ignores=[])):
+        if isinstance(st, (ast.Assign, ast.AugAssign, ast.AnnAssign)):
+            for t in U.flat_targets(st):
+                if isinstance(t, ast.Name):
+                    counts[t.id] = counts.get(t.id, 0) + 1
+    changed = True
+    while changed:
+        changed = False
+        for st in loop.body:
+            if isinstance(st, ast.Assign) and len(st.targets) == 1:
+                t, v = st.targets[0], st.value
+                pairs = [(t, v)]
+                if isinstance(t, ast.Tuple) and isinstance(v, ast.Tuple) and len(t.elts) == len(v.elts):
+                    pairs = list(zip(t.elts, v.elts))
+                for a, b in pairs:
+                    if isinstance(a, ast.Name) and counts.get(a.id) == 1 and a.id not in keys and keys & U.names_in(b) \
+                            and isinstance(b, (ast.Subscript, ast.Attribute, ast.Name, ast.BinOp, ast.JoinedStr)):
+                        keys.add(a.id)
+                        changed = True
+    return keys
 
 
 REDUCE_OPS = (ast.Add, ast.Mult, ast.BitOr, ast.BitAnd, ast.BitXor)
@@ -113,6 +148,8 @@ def check_loop(func, loop, p, frozen=()):
         if isinstance(n, ast.Name) and isinstance(n.ctx, ast.Store) and sq.get(id(n), 0) < sq[id(loop)]:
             assigned_before.add(n.id)
     params = {x.lstrip('*') for x in U.params(func)}
+    pname = p
+    p = item_keys(loop, p)
     reduced = set()
     plain_locals = set()
     for st in ast.walk(ast.Module(body=body, type_ignores=[])):
@@ -157,7 +194,7 @@ def check_loop(func, loop, p, frozen=()):
                             continue          # store into an object created in this iteration
                         if key in frozen:
                             continue
-                        problems.append(('store-not-at-index', st, f'{U.src(t)} is written without the loop index {p}: {U.src(st)[:100]}'))
+                        problems.append(('store-not-at-index', st, f'{U.src(t)} is written without the loop index {pname}: {U.src(st)[:100]}'))
         elif isinstance(st, (ast.Break, ast.Return)):
             problems.append(('early-exit', st, f'{type(st).__name__.lower()} inside the loop makes the result depend on the order of the items'))
     # loop-carried temporaries: read before assignment within one iteration
